@@ -30,13 +30,20 @@ template <class PT> void run_set(vf::Ctx& c, const char* tname, const regref::Se
       if (sig) { auto d = regref::pattern((unsigned)(i * 3 + ir)); q += sigma * V3(d[0], d[1], DIM == 3 ? d[2] : 0); }
       src.push_back(mkp<PT>(p)); tgt.push_back(mkp<PT>(q));
     }
-    for (int cm = 0; cm < 5; ++cm) {
+    for (int cm = 0; cm < 6; ++cm) {
       // correspondence modes: identity, reversed order, i -> 7i+3 mod n order, every other (subset), target stored permuted
       std::vector<Correspondence> cor; PointSet<PT> tgtUse = tgt;
       if (cm == 0) for (size_t i = 0; i < n; ++i) cor.emplace_back(i, i);
       else if (cm == 1) for (size_t i = n; i-- > 0;) cor.emplace_back(i, i);
       else if (cm == 2) { for (size_t i = 0; i < n; ++i) { size_t j = (7 * i + 3) % n; cor.emplace_back(j, j); } std::sort(cor.begin(), cor.end(), [](const Correspondence& a, const Correspondence& b) { return (a.sourcePointIndex * 2654435761u) % 1000003 < (b.sourcePointIndex * 2654435761u) % 1000003; }); cor.erase(std::unique(cor.begin(), cor.end(), [](const Correspondence& a, const Correspondence& b) { return a.sourcePointIndex == b.sourcePointIndex; }), cor.end()); }
       else if (cm == 3) { for (size_t i = 0; i < n; i += 2) cor.emplace_back(i, i); if (cor.size() < 3) continue; }
+      else if (cm == 5) {   // target stored permuted AND only part of the matches, in shuffled order (the shape of ICP matching output)
+        bool bij = true; { std::vector<int> seen(n, 0); for (size_t i = 0; i < n; ++i) if (seen[(i * 5 + 1) % n]++) bij = false; } if (!bij) continue;
+        for (size_t i = 0; i < n; ++i) tgtUse[(i * 5 + 1) % n] = tgt[i];
+        for (size_t i = 0; i < n; ++i) { size_t j = (3 * i + 2) % n; if (j % 3 != 1) cor.emplace_back(j, (j * 5 + 1) % n); }
+        std::sort(cor.begin(), cor.end(), [](const Correspondence& a, const Correspondence& b) { return a.sourcePointIndex < b.sourcePointIndex; }); cor.erase(std::unique(cor.begin(), cor.end(), [](const Correspondence& a, const Correspondence& b) { return a.sourcePointIndex == b.sourcePointIndex; }), cor.end());
+        std::reverse(cor.begin(), cor.end()); if (cor.size() < 3) continue;
+      }
       else { for (size_t i = 0; i < n; ++i) tgtUse[(i * 5 + 1) % n] = tgt[i]; bool bij = true; { std::vector<int> seen(n, 0); for (size_t i = 0; i < n; ++i) if (seen[(i * 5 + 1) % n]++) bij = false; } if (!bij) continue; for (size_t i = 0; i < n; ++i) cor.emplace_back(i, (i * 5 + 1) % n); }
       // reference (Horn) on the data as stored in S
       std::vector<V3> rs, rt; for (auto& k : cor) { rs.push_back(tov(src[k.sourcePointIndex])); rt.push_back(tov(tgtUse[k.targetPointIndex])); }
@@ -108,7 +115,7 @@ std::string vf_describe(const std::string& tier) {
   o.strs("sets_2d", a).strs("sets_3d", b);
   o.str("rotations", tier == "thorough" ? "2D: {0,+-1e-6,+-0.1,+-pi/2,+-(pi-1e-6),pi} + 71 angles every 5 deg; 3D: 6 axes x {0,1e-6,0.1,pi/2,pi-1e-6,pi} + 8 axes x {1e-3,0.5,1,2,2.5,3,pi-1e-3,pi-1e-9}; perturbed data on every rotation" : "2D: {0,+-1e-6,+-0.1,+-pi/2,+-(pi-1e-6),pi}; 3D: 6 axes x {0,1e-6,0.1,pi/2,pi-1e-6,pi}");
   o.str("translations", "0, (0.3,-1.2,2), (1e3,-1e3,10)");
-  o.str("correspondences", "identity, reversed, shuffled order, every other (subset), target stored permuted");
+  o.str("correspondences", "identity, reversed, shuffled order, every other (subset), target stored permuted, subset of a permuted target in reversed order");
   o.str("overloads", "index-based and aligned, plain and preconditioned with scale {1e-3, 1/largest side, 1, 1e3}");
   o.str("perturbation", "deterministic Halton pattern, sigma {0, 1e-3, 0.1} (perturbed on a third of the rotations)");
   o.str("oracle", "proper rotation (64 eps); agreement with Horn's quaternion (3D) / closed-form (2D) solution in long double within max(16 eps n Ms Mt/(s_{d-1}+s_d), 64 eps); exact data: residuals and motion within 1e-9 (float 1e-4) relative; cases whose conditioning bound exceeds that are outside the quantifier (collinear / unresolvable in the scalar type) and counted trivial");
